@@ -52,6 +52,32 @@ structure Traj where
 
 def Traj.nsamples (tr : Traj) : Nat := tr.ts.length
 
+/-! edits through the public interface of the trajectory's arrays (`traj.data.value = …`, `traj.data.set_value`, `set_at`,
+`traj.t.value = …`, `traj.data.units = …`): the trajectory holds the new content, nothing else is remembered -/
+
+/-- `traj.data.value = d` / `traj.data.set_value(d)` / in-place edits resulting in `d` -/
+def Traj.setData (tr : Traj) (d : List Rat) : Traj := { tr with data := d }
+
+/-- `traj.t.value = ts` -/
+def Traj.setTimes (tr : Traj) (ts : List Rat) : Traj := { tr with ts := ts }
+
+/-- `traj.data.units = u` (a re-labelling: the numbers stay) -/
+def Traj.setDataUnits (tr : Traj) (u : Units) : Traj := { tr with du := u }
+
+/-- one edit of a trajectory -/
+inductive TrajEdit where
+  | data (d : List Rat)
+  | times (ts : List Rat)
+  | dataUnits (u : Units)
+
+def Traj.edit (tr : Traj) : TrajEdit → Traj
+  | .data d => tr.setData d
+  | .times ts => tr.setTimes ts
+  | .dataUnits u => tr.setDataUnits u
+
+/-- a history of edits, oldest first -/
+def Traj.edits (tr : Traj) (es : List TrajEdit) : Traj := es.foldl Traj.edit tr
+
 /-- a species argument: number, label, or `Species` object (only its label is read) -/
 inductive SpeciesArg where
   | idx (i : Int)
